@@ -171,15 +171,23 @@ def build(spec, hash_order: Optional[dict[str, int]] = None) -> Bundle:
             cls = abstract(cls)
         classes[name] = cls
         ns[name] = cls
+    # two passes: first every production class exists (no annotations yet), then the annotations are set
+    # with real class objects and the dataclass machinery is applied in place -- no string forward
+    # references (typing caches Union[...] objects, and an evaluated ForwardRef inside a cached Union
+    # would leak a class of an earlier build into a later one)
     for name, parent, w, fields in spec["prods"]:
         bases = (classes[parent],) if parent is not None else ()
-        ann = {fn: ty(ft) for fn, ft in fields}
-        kw = {"__module__": modname, "__qualname__": name, "__annotations__": ann}
+        kw = {"__module__": modname, "__qualname__": name}
         if use_meta:
             cls = OrderMeta(name, bases or (object,), kw)
         else:
             meta = type(bases[0]) if bases else type
             cls = meta(name, bases or (object,), kw)
+        classes[name] = cls
+        ns[name] = cls
+    for name, parent, w, fields in spec["prods"]:
+        cls = classes[name]
+        cls.__annotations__ = {fn: ty(ft) for fn, ft in fields}
         cls = dataclass(cls)
         if w is not None:
             cls = weight(w)(cls)
@@ -300,6 +308,7 @@ def finite_alphabet(A="A", L="L"):
         ["union", IR01, ref(L)],
         ["tuple", IR01, IR01],
         ["tuple", ref(A), IR01],
+        ["tuple", IR01, ref(A)],
         SSB,
         SSB0,
         WSH,
@@ -558,6 +567,20 @@ def family_shapes():
             "start": "A",
         },
     )
+    # S18 recursion only through the LAST component of a tuple and mutual recursion through a list of tuples
+    out.append(
+        {
+            "name": "S18:tuple-rec-last",
+            "abstract": [["A", None, "ABC"], ["B", None, "ABC"]],
+            "prods": [
+                ["L", "A", None, [["v", IR01]]],
+                ["T", "A", None, [["t", ["tuple", IR01, "bool", ref("B")]]]],
+                ["M", "B", None, [["w", VRxy]]],
+                ["N", "B", None, [["xs", lsb(["tuple", IR01, ref("A")], 1, 1)]]],
+            ],
+            "start": "A",
+        },
+    )
     # S16 union of two abstract types of different minimum depth
     out.append(
         {
@@ -627,7 +650,7 @@ def finite_family(tier: str):
     fa = finite_alphabet()
     out = list(family_one_abstract(fa, 1 if tier == "quick" else 2, "F1"))
     out += [s for s in family_shapes() if s["name"].split(":")[0] in
-            ("S1", "S2", "S3", "S4", "S5", "S6", "S7", "S8", "S9", "S10", "S12", "S13", "S14", "S15", "S16", "S17")]
+            ("S1", "S2", "S3", "S4", "S5", "S6", "S7", "S8", "S9", "S10", "S12", "S13", "S14", "S15", "S16", "S17", "S18")]
     out += list(family_two_abstract(finite_alphabet, "F2"))
     out += list(family_nested(finite_alphabet, "F3"))
     return out
